@@ -227,6 +227,9 @@ func evalC19(test string) func(c *peCase) evalResult {
 		v := ev.Verdict{Hash: c.hash(), Classes: []string{"level:" + c.Level, "fault:" + f.Kind, why}}
 		if f.Kind == "garbage" {
 			v.Classes = append(v.Classes, "garbage:"+f.Garbage)
+			if f.DelayMs > 0 {
+				v.Classes = append(v.Classes, "garbage-arrives-late")
+			}
 		}
 		if res.StartErr != nil {
 			v.Err, v.Key = fmt.Errorf("harness: %v", res.StartErr), "harness"
@@ -359,6 +362,9 @@ func enumerateFaults(t *testing.T, r *ev.Rec, test string, base *peCase, seed in
 					f.PrefixLen = rapid.IntRange(1, n-1).Draw(rt, fmt.Sprintf("plen%d", j))
 				}
 			}
+			if rapid.IntRange(0, 4).Draw(rt, fmt.Sprintf("late%d", j)) == 2 {
+				f.DelayMs = 400 // a slow peer: the undecodable answer arrives well after the request
+			}
 			fs = append(fs, f)
 		}
 		return fs
@@ -373,6 +379,15 @@ func enumerateFaults(t *testing.T, r *ev.Rec, test string, base *peCase, seed in
 		c := *base
 		c.Sc.Fault = f
 		cases = append(cases, &c)
+	}
+	// answers the emulator does not wait for (ReleasePDU goes on by the clock; the PDU SESSION RESOURCE RELEASE COMMAND is
+	// only read by the next procedure): undecodable AND late, so that it arrives while the emulator is doing other things
+	for _, e := range res.AMF.Transcript {
+		if e.Dir == "dl" && strings.Contains(e.What, "ReleaseCommand") && e.Idx >= 0 && e.Idx < len(dlLens) {
+			c := *base
+			c.Sc.Fault = refamf.Fault{Kind: "garbage", Index: e.Idx, Garbage: garbageFamilies[(seed+e.Idx)%len(garbageFamilies)], PrefixLen: 3, DelayMs: 400}
+			cases = append(cases, &c)
+		}
 	}
 	// the answer to the NG SETUP REQUEST is replaced by every family in turn (these runs end at once, they cost nothing);
 	// the cut of the truncated NG SETUP FAILURE varies with the scenario
